@@ -3,7 +3,8 @@
    Print Assumptions.  The model and the declarative estimator `E`/`estimator` are in
    Model/Reconstruct.v (parts 1-7 = model, part 8 = specification). *)
 From Coq Require Import QArith Ascii String.
-From CKT Require Import Common.Base Model.Reconstruct Proofs.ReconstructP.
+From CKT Require Import Common.Base Model.Observables Model.Grouping Model.Reconstruct Proofs.ReconstructP
+                        Model.ReconstructGrouping Proofs.ReconstructGroupingP.
 Close Scope Q_scope.
 Open Scope nat_scope.
 
@@ -108,6 +109,98 @@ Theorem c06_letters_shape : forall label phases groups subobs,
   length (plookup (part_of_letters label phases groups subobs)) = length subobs /\
   locs_ok (part_of_letters label phases groups subobs).
 Proof. exact part_of_letters_ok. Qed.
+
+(* ------------------------------------------------------------------------------------------ *)
+(* EXTENSION ROUND: fewer assumptions.                                                         *)
+(* ------------------------------------------------------------------------------------------ *)
+
+(* (a) the int(s,0) oracle and its contract are replaced by the executable parser pyint0_ref:
+       the three documented key syntaxes, no hypothesis left *)
+Theorem c06_keys_parser :
+  (forall n, outcome_to_int pyint0_ref (KInt n) = Some n) /\
+  (forall s, key_chars s <> [] -> forallb (digit_ok 2) (key_chars s) = true ->
+     outcome_to_int pyint0_ref (KStr s) = Some (radix_value 2 (key_chars s))) /\
+  (forall s c ds, c = "b"%char \/ c = "B"%char -> key_chars s = "0"%char :: c :: ds -> ds <> [] ->
+     forallb (digit_ok 2) ds = true -> outcome_to_int pyint0_ref (KStr s) = Some (radix_value 2 ds)) /\
+  (forall s c hs, c = "x"%char \/ c = "X"%char -> key_chars s = "0"%char :: c :: hs -> hs <> [] ->
+     forallb (digit_ok 16) hs = true -> outcome_to_int pyint0_ref (KStr s) = Some (radix_value 16 hs)).
+Proof. exact keys_parser. Qed.
+
+(* ... and the estimator theorem with `den` = what the parser returns; the key hypothesis is the
+   decidable "the parser accepts every key" *)
+Theorem c06_estimator_parser : forall nobs coeffs pds,
+  (forall pd, In pd pds -> data_len (snd pd) = length coeffs * length (pgroups (fst pd))) ->
+  (forall pd, In pd pds -> length (plookup (fst pd)) = nobs /\ locs_ok (fst pd)) ->
+  (forall pd k, In pd pds -> In k (keys_of (snd pd)) -> outcome_to_int pyint0_ref k <> None) ->
+  res_Qeq (reconstruct_parts pyint0_ref nobs coeffs pds)
+          (Ok (map (estimator ref_den coeffs pds) (seq 0 nobs))).
+Proof. exact estimator_parser. Qed.
+
+(* (b) the V2 path averages with the shot count of THE PUB BEING PROCESSED: the vector accumulated for
+       experiment idx is (sum over that pub's shots of the +-1 values) / (number of shots of that pub) *)
+Theorem c06_v2_own_shots : forall pyint0 pubs idx c n, n < length (cog_masks c) ->
+  exists v, experiment pyint0 (DV2 pubs) idx c = Ok v /\
+    (nth n v 0
+     == Qsum (map (fun s => inject_Z (outcome_value_v2 (nth n (cog_masks c) 0%N) (bytes_value (fst s)) (bytes_value (snd s))))
+                  (nth idx pubs []))
+        / Qnat (length (nth idx pubs [])))%Q.
+Proof. exact experiment_v2_own_shots. Qed.
+
+(* (c) the public function itself (dict form: key-set check, phase check, per-label association of
+       the results, count check, loops) returns the estimator *)
+Theorem c06_public_estimator : forall pyint0 den m coeffs p0 ps,
+  (forall l, In l (map plabel (p0 :: ps)) <-> In l (map fst m)) ->
+  (forall p x, In p (p0 :: ps) -> In x (pphases p) -> x = 0) ->
+  (forall p, In p (p0 :: ps) -> length (plookup p) = length (plookup p0) /\ locs_ok p) ->
+  (forall p d, In p (p0 :: ps) -> assoc m (plabel p) = Some d ->
+     data_len d = length coeffs * length (pgroups p) /\
+     forall k, In k (keys_of d) -> outcome_to_int pyint0 k = Some (den k)) ->
+  exists pds, map fst pds = p0 :: ps /\
+    (forall pd, In pd pds -> assoc m (plabel (fst pd)) = Some (snd pd)) /\
+    res_Qeq (reconstruct pyint0 (RMap m) coeffs (OMap (p0 :: ps)))
+            (Ok (map (estimator den coeffs pds) (seq 0 (length (plookup p0))))).
+Proof. exact public_estimator. Qed.
+
+(* (d) BRIDGE TO C11: the groups / measured-bit counts / bitmasks / lookup that C11's model of
+       ObservableCollection (most_general_observable, __post_init__, the lookup loop; any answer of
+       the group_commuting oracle) produces are exactly the partition the C06 model builds from the
+       Pauli letters *)
+Theorem c06_grouping_bridge : forall label subobs o cogs lk,
+  collection subobs o = Ok (cogs, lk) ->
+  (forall p, In p subobs -> pphase p = 0) ->
+  part_of_collection label subobs (cogs, lk)
+  = part_of_letters label (map pphase subobs) (map lgroup_of_c11 cogs) (map plets subobs).
+Proof. exact collection_bridge. Qed.
+
+(* ... so the shape hypotheses of c06_estimator are theorems, not monitored contracts, for them *)
+Theorem c06_grouping_shape : forall label subobs o cogs lk,
+  collection subobs o = Ok (cogs, lk) ->
+  (forall p, In p subobs -> pphase p = 0) ->
+  length (plookup (part_of_collection label subobs (cogs, lk))) = length subobs /\
+  locs_ok (part_of_collection label subobs (cogs, lk)).
+Proof. exact collection_shape. Qed.
+
+(* ... and "value = the defined estimator" and "V1 = V2" hold for the masks the grouping code really
+   produces, with the executable key parser: the only hypotheses left are the count match, "every
+   key is accepted" and (for V1 = V2) that every observable-register value fits its register *)
+Theorem c06_estimator_grouping : forall nobs coeffs pds,
+  (forall pd, In pd pds -> from_collection nobs pd) ->
+  (forall pd, In pd pds -> data_len (snd pd) = length coeffs * length (pgroups (fst pd))) ->
+  (forall pd k, In pd pds -> In k (keys_of (snd pd)) -> outcome_to_int pyint0_ref k <> None) ->
+  res_Qeq (reconstruct_parts pyint0_ref nobs coeffs pds)
+          (Ok (map (estimator ref_den coeffs pds) (seq 0 nobs))).
+Proof. exact estimator_grouping. Qed.
+
+Theorem c06_v1_v2_estimator_grouping : forall nobs coeffs pds,
+  (forall pd, In pd pds -> from_collection nobs pd) ->
+  (forall pd, In pd pds -> data_len (snd pd) = length coeffs * length (pgroups (fst pd))) ->
+  (forall pd k, In pd pds -> In k (keys_of (snd pd)) -> outcome_to_int pyint0_ref k <> None) ->
+  (forall pd, In pd pds -> obs_in_range (fst pd) (snd pd)) ->
+  reconstruct_parts pyint0_ref nobs coeffs (map (fun pd => (fst pd, pack (fst pd) (snd pd))) pds)
+  = reconstruct_parts pyint0_ref nobs coeffs pds /\
+  res_Qeq (reconstruct_parts pyint0_ref nobs coeffs (map (fun pd => (fst pd, pack (fst pd) (snd pd))) pds))
+          (Ok (map (estimator ref_den coeffs pds) (seq 0 nobs))).
+Proof. exact v1_v2_estimator_grouping. Qed.
 
 (* the contract assumed of int(s, 0) is satisfiable: the reference instance used by the
    correspondence check satisfies it *)
@@ -229,6 +322,62 @@ Example c06_ex_keys_upper :
   map (outcome_to_int pyint0_ref) [KStr "0B100 0000 0001"; KStr "0X401"; KStr "0Xg"] = [Some 1025; Some 1025; None]%N.
 Proof. reflexivity. Qed.
 
+(* ---- extension round: non-vacuity ---- *)
+(* a collection built by C11's model: sub-observables Z.Z / X.. / ..Z on 3 qubits (letters by qubit
+   index), the oracle groups {ZIZ-like, ..Z} and {X..}; general observable of group 0 has a gap *)
+Definition exS : list pauli := [mkP 0 [3; 0; 3]; mkP 0 [1; 0; 0]; mkP 0 [0; 0; 3]; mkP 0 [3; 0; 3]].
+Definition exO : grouping_oracle :=
+  mkOracle [mkP 0 [3; 0; 3]; mkP 0 [1; 0; 0]; mkP 0 [0; 0; 3]] [[mkP 0 [3; 0; 3]; mkP 0 [0; 0; 3]]; [mkP 0 [1; 0; 0]]].
+Definition exC : part := mkPart 5 [0; 0; 0; 0] [(2, [3; 2]%N); (1, [1%N])] [[(0, 0)]; [(1, 0)]; [(0, 1)]; [(0, 0)]].
+
+Example c06_ex_collection : part_of_observables 5 exS exO = Ok exC /\ grouping_contract exS exO = true.
+Proof. split; vm_compute; reflexivity. Qed.
+
+(* V2 data with DIFFERENT shot counts per pub (2 coefficients x 2 groups = 4 pubs: 2, 1, 4, 3 shots) *)
+Definition exCd : pdata :=
+  DV2 [ [([3], [1; 255]); ([1], [0; 0])] ; [([1], [2; 0])] ;
+        [([0], [0; 1]); ([2], [0; 1]); ([3], [1; 0]); ([1], [0; 0])] ; [([0], [0; 0]); ([1], [0; 0]); ([1], [0; 1])] ]%N.
+
+Example c06_ex_from_collection : from_collection 4 (exC, exCd).
+Proof.
+  exists 5, exS, exO. destruct (collection exS exO) as [coll| |] eqn:E; try (vm_compute in E; discriminate).
+  exists coll. split; [reflexivity|]. split; [intros p [<-|[<-|[<-|[<-|[]]]]]; reflexivity|]. split; [reflexivity|].
+  cbn [fst]. vm_compute in E. inversion E. reflexivity.
+Qed.
+
+Example c06_ex_grouping_hyps :
+  (forall pd, In pd [(exC, exCd)] -> from_collection 4 pd) /\
+  (forall pd, In pd [(exC, exCd)] -> data_len (snd pd) = length ex_coeffs * length (pgroups (fst pd))) /\
+  (forall pd k, In pd [(exC, exCd)] -> In k (keys_of (snd pd)) -> outcome_to_int pyint0_ref k <> None) /\
+  (forall pd, In pd [(exC, exCd)] -> obs_in_range (fst pd) (snd pd)).
+Proof.
+  split; [intros pd [<-|[]]; exact c06_ex_from_collection|].
+  split; [intros pd [<-|[]]; reflexivity|].
+  split; [intros pd k [<-|[]] []|].
+  intros pd [<-|[]] idx s Hidx Hs. cbn in Hidx.
+  do 4 (destruct idx as [|idx]; [cbn in Hs; repeat (destruct Hs as [<-|Hs]; [reflexivity|]); destruct Hs|]).
+  lia.
+Qed.
+
+(* per-pub shot counts: pub 2 has 4 shots, pub 3 has 3 shots; the weights are 1/4 resp. 1/3 *)
+Example c06_ex_own_shots :
+  experiment pyint0_ref exCd 2 (2, [3; 2]%N) = Ok [Qmake (-1) 2; Qmake 1 2] /\
+  experiment pyint0_ref exCd 3 (1, [1%N]) = Ok [Qmake 1 3].
+Proof. split; vm_compute; reflexivity. Qed.
+
+Example c06_ex_grouping_value :
+  reconstruct_parts pyint0_ref 4 ex_coeffs [(exC, exCd)]
+  = reconstruct_parts pyint0_ref 4 ex_coeffs [(exC, pack exC exCd)] /\
+  list_beq Qeq_bool (map (estimator ref_den ex_coeffs [(exC, exCd)]) (seq 0 4))
+    (match reconstruct_parts pyint0_ref 4 ex_coeffs [(exC, exCd)] with Ok v => v | _ => [] end) = true /\
+  is_ok (reconstruct_parts pyint0_ref 4 ex_coeffs [(exC, exCd)]) = true.
+Proof. repeat split; vm_compute; reflexivity. Qed.
+
+(* the public wrapper on a results dict ordered differently from the observables dict *)
+Example c06_ex_public :
+  reconstruct pyint0_ref (RMap [(1, exBd); (0, exAd)]) ex_coeffs (OMap [exA; exB]) = Ok [Qmake (-7) 16; Qmake (-3) 2].
+Proof. vm_compute. reflexivity. Qed.
+
 Example c06_ex_count_refused :
   reconstruct_parts pyint0_ref 2 [Qmake 1 2] ex_pds = Refused.
 Proof. reflexivity. Qed.
@@ -242,6 +391,14 @@ Print Assumptions c06_count_refused.
 Print Assumptions c06_sign_values.
 Print Assumptions c06_keys.
 Print Assumptions c06_keys_same_result.
+Print Assumptions c06_keys_parser.
+Print Assumptions c06_estimator_parser.
+Print Assumptions c06_v2_own_shots.
+Print Assumptions c06_public_estimator.
+Print Assumptions c06_grouping_bridge.
+Print Assumptions c06_grouping_shape.
+Print Assumptions c06_estimator_grouping.
+Print Assumptions c06_v1_v2_estimator_grouping.
 Print Assumptions c06_total.
 Print Assumptions c06_measured_qubits.
 Print Assumptions c06_mask_bits.
